@@ -413,7 +413,8 @@ Inductive ev :=
                                                      answered by [leaf]), depth - 1 *)
 | AdjLeaf (c : positive) (e : ev)                 (* AdjustedSeatCount with an arbitrary calculator (answered by [leaf]) *)
 | AdjAllow (pe : ev) (e : ev)                     (* AdjustedSeatCount(AllowOverhang(pe), e) *)
-| AdjLevel (pe : ev) (e : ev) (fuel : nat)        (* AdjustedSeatCount(LevelOverhang(pe), e); fuel of the levelling loop (model only) *).
+| AdjLevel (pe : ev) (e : ev) (fuel : nat)        (* AdjustedSeatCount(LevelOverhang(pe), e); fuel of the levelling loop (model only) *)
+| ByConsP (e : ev) (a : aspec) (pre : ev)         (* ByConstituency with a preselector (fixed / delegated apportionment) *).
 
 Definition sig_of (t : ev) : sigt :=
   match t with
@@ -421,7 +422,7 @@ Definition sig_of (t : ev) : sigt :=
   | PreConv _ _ | PostConv _ _ | TieBr _ _ | VSys _ => sig_generic
   | Fixed _ _ => sig_fixed
   | Cond _ _ _ => sig_cond
-  | ByCons _ _ | ByConsD _ _ | PreApp _ _ | PreAppD _ _ | RemApp _ | ByParty _ _ | ByPartyS _ => sig_constit
+  | ByCons _ _ | ByConsD _ _ | PreApp _ _ | PreAppD _ _ | RemApp _ | ByParty _ _ | ByPartyS _ | ByConsP _ _ _ => sig_constit
   | Multi _ _ | Unused _ _ _ => sig_distr
   | PListC _ | PListO _ _ _ => sig_plist
   | AdjLeaf _ _ | AdjAllow _ _ | AdjLevel _ _ _ => sig_adj
@@ -439,7 +440,7 @@ Fixpoint takes (t : ev) (k : kw) : bool :=
   | Fixed e _ => negb (kw_eqb k KSeats) && takes e k
   | Cond _ e _ => kw_eqb k KSeats || kw_eqb k KPrev || takes e k
   | ByCons _ _ | ByConsD _ _ | PreApp _ _ | PreAppD _ _ | RemApp _ | ByParty _ _ | ByPartyS _ | Multi _ _
-  | Unused _ _ _ | AdjLeaf _ _ | AdjAllow _ _ | AdjLevel _ _ _ =>
+  | Unused _ _ _ | AdjLeaf _ _ | AdjAllow _ _ | AdjLevel _ _ _ | ByConsP _ _ _ =>
       kw_eqb k KSeats || kw_eqb k KPrev || kw_eqb k KMax
   | PListC p | PListO p _ _ => kw_eqb k KSeats || kw_eqb k KPl || kw_eqb k KLv || takes p k
   end.
@@ -847,6 +848,34 @@ Section Run.
         >>= fun seat_adj =>
         add_val (nget b KSeats) seat_adj >>= fun n' =>
         run_impl e votes (call_npm n' (nget b KPrev) (nget b KMax))
+    | ByConsP e a pre =>
+        bind sig_constit pa >>= fun b =>
+        let n_seats := nget b KSeats in
+        (match a with
+         | AInt n => uniform votes (VInt n)
+         | ADict d => Ok (VDict d)
+         | ANone => match n_seats with
+                    | VDict _ => Ok n_seats
+                    | VInt _ => uniform votes n_seats
+                    | _ => raise E_VALUE
+                    end
+         end) >>= fun apportionment =>
+        (* _preselect: the national totals through the preselector (repair: an omitted seat count is not forwarded) *)
+        vote_totals votes >>= fun nat_votes =>
+        (if acc_seats pre && negb (is_none n_seats) then run_impl pre nat_votes (call_n n_seats)
+         else run_impl pre nat_votes call0) >>= fun preselected =>
+        as_dict votes >>= fun dvs =>
+        map_res (fun kv =>
+                   as_dict apportionment >>= fun ad =>
+                   as_dict (nget b KPrev) >>= fun pd =>
+                   as_dict (nget b KMax) >>= fun md =>
+                   let n := dget_or ad (fst kv) (VInt 0) in
+                   if is_zero n then Ok (fst kv, None)
+                   else subset_votes (snd kv) preselected >>= fun sv =>
+                        (if acc_prev e
+                         then run_impl e sv (call_npm n (dget_or pd (fst kv) (VDict [])) (dget_or md (fst kv) (VDict [])))
+                         else run_impl e sv (call_n n)) >>= fun r => Ok (fst kv, Some r)) dvs
+        >>= finish_districts
     end.
 
   (* ================================================================ run_spec : by hand *)
@@ -1041,6 +1070,31 @@ Section Run.
                    (sa_get b KSeats) (sa_get b KPrev) (sa_get b KMax) >>= fun seat_adj =>
         add_val (sa_get b KSeats) seat_adj >>= fun n' =>
         run_spec e votes (sa_npm n' (sa_get b KPrev) (sa_get b KMax))
+    | ByConsP e a pre =>
+        (* each constituency separately, on its votes restricted to the candidates preselected on the national totals *)
+        accept sig_constit sa >>= fun b =>
+        (match a, k_seats sa with
+         | AInt n, _ => uniform votes (VInt n)
+         | ADict d, _ => Ok (VDict d)
+         | ANone, Some (VDict d) => Ok (VDict d)
+         | ANone, Some (VInt n) => uniform votes (VInt n)
+         | ANone, _ => raise E_VALUE
+         end) >>= fun apportionment =>
+        totals_s votes >>= fun nat_votes =>
+        run_spec pre nat_votes (kset kw_none KSeats (if takes pre KSeats then given (sa_get b KSeats) else None)) >>= fun preselected =>
+        as_dict votes >>= fun dvs =>
+        map_res (fun kv =>
+                   as_dict apportionment >>= fun ad =>
+                   as_dict (sa_get b KPrev) >>= fun pd =>
+                   as_dict (sa_get b KMax) >>= fun md =>
+                   let n := dget_or ad (fst kv) (VInt 0) in
+                   if is_zero n then Ok (fst kv, None)
+                   else subset_s (snd kv) preselected >>= fun sv =>
+                        run_spec e sv
+                          (if takes e KPrev
+                           then sa_npm n (dget_or pd (fst kv) (VDict [])) (dget_or md (fst kv) (VDict []))
+                           else only KSeats n) >>= fun r => Ok (fst kv, Some r)) dvs
+        >>= finish_districts
     end.
 End Run.
 
@@ -1078,6 +1132,7 @@ Fixpoint seat_any (t : ev) : bool :=
   | ByConsD _ ae | PreAppD _ ae => takes ae KSeats
   | ByParty ov _ => takes ov KSeats
   | Multi rs _ => forallb seat_any rs
+  | ByConsP _ _ pre => seat_any pre
   end.
 Fixpoint seat_ok (t : ev) (v : val) : bool :=
   match t with
@@ -1088,6 +1143,7 @@ Fixpoint seat_ok (t : ev) (v : val) : bool :=
   | ByConsD _ ae | PreAppD _ ae => match v with VInt _ => takes ae KSeats | _ => true end
   | ByParty ov _ => is_none v || takes ov KSeats
   | Multi rs _ => forallb (fun s => seat_ok s v) rs
+  | ByConsP _ _ pre => if takes pre KSeats && negb (is_none v) then seat_ok pre v else seat_ok pre VNone
   end.
 Definition seat_of (sa : kwrec) : val := match k_seats sa with Some v => v | None => VNone end.
 Definition seat_fits (t : ev) (sa : kwrec) : bool := seat_ok t (seat_of sa).
@@ -1115,6 +1171,7 @@ Fixpoint wt (t : ev) : bool :=
   | AdjLeaf _ e => takes_spm e && seat_any e && wt e
   | AdjAllow pe e | AdjLevel pe e _ =>
       takes pe KSeats && takes pe KMax && seat_any pe && wt pe && takes_spm e && seat_any e && wt e
+  | ByConsP e _ pre => takes e KSeats && prev_implies_max e && seat_any e && wt e && wt pre
   end.
 
 (* the typing of the first version of this model: apportioners and overall evaluators take a seat count *)
@@ -1123,7 +1180,7 @@ Fixpoint seated (t : ev) : bool :=
   | Leaf _ _ => true
   | PreConv _ e | PostConv e _ | VSys e | Fixed e _ | ByCons e _ | PreApp e _ | RemApp e | ByPartyS e | PListC e
   | AdjLeaf _ e => seated e
-  | Cond a b _ | TieBr a b | PListO a b _ | AdjAllow a b | AdjLevel a b _ => seated a && seated b
+  | Cond a b _ | TieBr a b | PListO a b _ | AdjAllow a b | AdjLevel a b _ | ByConsP a _ b => seated a && seated b
   | ByConsD e ae | PreAppD e ae => seated e && takes ae KSeats && seated ae
   | ByParty ov al => takes ov KSeats && seated ov && seated al
   | Multi rs _ | Unused rs _ _ => forallb seated rs
@@ -1143,4 +1200,5 @@ Fixpoint faithful (t : ev) : bool :=
   | TieBr m b => faithful m && faithful b
   | PListO p le _ => faithful p && faithful le
   | AdjAllow pe e | AdjLevel pe e _ => faithful pe && faithful e
+  | ByConsP e _ pre => insp_prev e && insp_seats pre && faithful e && faithful pre
   end.
